@@ -7,6 +7,7 @@ import Feox.Drv.Conc
 import Feox.Drv.Pin
 import Feox.Drv.InFlight
 import Feox.Drv.Range
+import Feox.Drv.Tiers
 /-! `feoxdrv` — the Lean side of the correspondence check: reads one operation per line on
 stdin, runs the executable models, prints one answer line per input line.  Imports models
 only (no Mathlib, no proof files), so it links as a native executable. -/
@@ -21,6 +22,7 @@ structure Drv where
   pin : Conc.Pin.State := {}
   ifl : Conc.InFlight.Set := {}
   scan : Drv.RangeDrv.St := {}
+  tiers : Drv.TiersDrv.St := []
 
 def stepLine (d : Drv) (line : String) : IO (Drv × String) := do
   match (line.trimAscii.toString.splitOn " ").filter (· ≠ "") with
@@ -43,6 +45,10 @@ def stepLine (d : Drv) (line : String) : IO (Drv × String) := do
   | "pin" :: rest =>
     match Drv.PinDrv.handle d.pin rest with
     | some (s, out) => pure ({ d with pin := s }, out)
+    | none => pure (d, "bad-op")
+  | "tier" :: rest =>
+    match Drv.TiersDrv.handle d.tiers rest with
+    | some (s, out) => pure ({ d with tiers := s }, out)
     | none => pure (d, "bad-op")
   | "ifl" :: rest =>
     match Drv.InFlightDrv.handle d.ifl rest with
